@@ -64,6 +64,7 @@ impl Prop for C12 {
         if r.verify {
             r.start = Some(1);
         }
+        fit_chunks(&mut r.plan, chain_bytes(&scn.chain), 150_000);
         scn.runs = vec![r];
         h.check(&mut scn)?;
         Ok(())
